@@ -138,7 +138,7 @@ def stage_b(ctx, front, cfgp, label, max_len=30, max_paths=None, vmap=None, grap
 
 
 NAMES = [[], ['a'], ['a', 'b'], ['a', 'b', 'c'], ['a', 'c'], ['b'], ['a', 'b', 'd'], ['b', 'a']]
-REPRS = ['uri', 'strlist', 'byteslist', 'bytearraylist', 'memviewlist', 'wire', 'wirebuf', 'mutbuf']
+REPRS = ['uri', 'strlist', 'byteslist', 'bytearraylist', 'memviewlist', 'wire', 'wirebuf', 'mutbuf', 'tuple', 'iter']
 
 
 def random_schedule(rng, front, n_events, weights=None, junk=None, max_ints=10, names=None):
